@@ -1,0 +1,88 @@
+//go:build verif
+
+// Contracts for the verification framework in /verif (comment-only file; it is
+// compiled only with -tags verif and contributes no code). Syntax: DESIGN.md §3.
+
+package dhcp
+
+// ---- server.go: ending a DHCPv4 session releases everything it held (C16) ----
+//
+// Every release operation is observed through a ghost counter that the
+// operation's contract increments in its caller (sets clauses in pkg/ebpf,
+// pkg/qos, pkg/nat, pkg/radius and below). The postcondition of each
+// termination path says: if the client had a lease (looked up under leasesMu),
+// the address went back to its pool exactly once, NAT / QoS were removed when
+// configured, every fast-path cache entry that could answer for the lease was
+// removed, and exactly one Accounting-Stop was issued if a session had been
+// started; if the client had no lease nothing was released (ending twice has no
+// further effect).
+
+//@ type Server
+//@   owns leasesMu: leases
+//@   owns leasesByCircuitIDMu: leasesByCircuitID
+
+//@ type Pool
+//@   owns mu: allocated available unavailable
+
+//@ type PoolManager
+//@   owns poolsMu: pools defaultPoolID
+
+//@ func (p *Pool) Release
+//@   modifies p.allocated, p.available, p.unavailable
+//@   sets relPool = relPool + 1
+
+//@ func (p *Pool) MarkUnavailable
+//@   modifies p.allocated, p.available, p.unavailable
+//@   sets markedUnavailable = markedUnavailable + 1
+
+//@ func (m *PoolManager) GetPool
+//@   modifies m.pools, m.defaultPoolID
+//@   sets lastPool = result
+
+//@ pure func leaseKey(req *dhcpv4.DHCPv4) string = macstr(req.ClientHWAddr)
+
+// releaseLease is the single teardown path (RELEASE, DECLINE, expiry).
+//@ func (s *Server) releaseLease
+//@   mode goinline
+//@   requires lease != nil && s.poolMgr != nil
+//@   ghost relPool mathint = 0
+//@   ghost markedUnavailable mathint = 0
+//@   ghost relNAT mathint = 0
+//@   ghost relQoS mathint = 0
+//@   ghost relCacheMAC mathint = 0
+//@   ghost relCacheVLAN mathint = 0
+//@   ghost relCacheCID mathint = 0
+//@   ghost acctStops mathint = 0
+//@   ghost lastPool *Pool = nil
+//@   ensures relPool == ite(lastPool != nil, 1, 0) && markedUnavailable == ite(lastPool != nil && quarantine, 1, 0)
+//@   ensures relNAT == ite(old(s.natMgr) != nil, 1, 0) && relQoS == ite(old(s.qosMgr) != nil, 1, 0)
+//@   ensures acctStops == ite(old(s.radiusClient) != nil && old(lease.SessionID) != "", 1, 0)
+//@   ensures relCacheMAC == ite(old(s.loader) != nil, 1, 0)
+//@   ensures old(s.loader) != nil && (old(lease.STag) > 0 || old(lease.CTag) > 0) && old(s.loader.vlanSubscriberPools) != nil ==> relCacheVLAN == 1
+//@   ensures old(s.loader) != nil && old(len(lease.CircuitID)) > 0 && old(s.loader.circuitIDSubscribers) != nil ==> relCacheCID == 1
+//@   sets relSessions = relSessions + 1
+//@   sets relQuarantined = relQuarantined + ite(quarantine, 1, 0)
+
+//@ func (s *Server) handleRelease
+//@   requires req != nil && s.poolMgr != nil
+//@   ghost relSessions mathint = 0
+//@   ghost relQuarantined mathint = 0
+//@   ensures lockedN(1, leaseKey(req) in s.leases) && lockedN(1, s.leases[leaseKey(req)]) != nil ==> relSessions == 1 && relQuarantined == 0
+//@   ensures !lockedN(1, leaseKey(req) in s.leases) ==> relSessions == 0
+
+//@ func (s *Server) handleDecline
+//@   requires req != nil && s.poolMgr != nil
+//@   ghost relSessions mathint = 0
+//@   ghost relQuarantined mathint = 0
+//@   ensures lockedN(1, leaseKey(req) in s.leases) && lockedN(1, s.leases[leaseKey(req)]) != nil ==> relSessions == 1 && relQuarantined == 1
+//@   ensures !lockedN(1, leaseKey(req) in s.leases) ==> relSessions == 0
+
+//@ func (s *Server) cleanupExpiredLeases
+//@   requires s.poolMgr != nil
+//@   ghost relSessions mathint = 0
+//@   ghost relQuarantined mathint = 0
+//@   ensures relQuarantined == 0 && relSessions == len(expired)
+
+// every lease collected as expired (and removed from the table in the same critical section) is torn down
+//@ loop Server.cleanupExpiredLeases#2
+//@   invariant relSessions == ridx && relQuarantined == 0
